@@ -136,13 +136,26 @@ fn find(hay: &[u8], needle: &[u8]) -> Option<usize> {
 }
 
 /// M-utf16: UTF-16 code units before byte offset `b` of `line` (b floored to a char boundary)
+thread_local! {
+    /// the unit the server announced for `character` offsets in this session: 0 = UTF-16 (the protocol's default), 1 = UTF-8 bytes, 2 = code points
+    static UNIT: std::cell::Cell<u8> = std::cell::Cell::new(0);
+}
+
+fn unit_len(ch: char) -> u32 {
+    match UNIT.with(|u| u.get()) {
+        1 => ch.len_utf8() as u32,
+        2 => 1,
+        _ => ch.len_utf16() as u32,
+    }
+}
+
 pub fn utf16_col(line: &str, b: usize) -> u32 {
     let mut units = 0u32;
     for (i, ch) in line.char_indices() {
         if i + ch.len_utf8() > b {
             break;
         }
-        units += ch.len_utf16() as u32;
+        units += unit_len(ch);
     }
     units
 }
@@ -157,14 +170,14 @@ pub fn utf16_table(line: &str) -> Vec<u32> {
             t[i + k] = units;
         }
         i += ch.len_utf8();
-        units += ch.len_utf16() as u32;
+        units += unit_len(ch);
     }
     t[line.len()] = units;
     t
 }
 
 pub fn utf16_len(line: &str) -> u32 {
-    line.chars().map(|c| c.len_utf16() as u32).sum()
+    line.chars().map(unit_len).sum()
 }
 
 fn token_type_index(t: TokenType) -> u32 {
@@ -269,6 +282,7 @@ fn document(rng: &mut Rng) -> String {
 }
 
 struct Stats {
+    offers_with_utf8_after_utf16: u64,
     late_publishes: u64,
     max_diags: u64,
     bursts: u64,
@@ -318,7 +332,19 @@ fn check_publish(diag: &Value, text: &str, doc_json: &Value, stats: &mut Stats) 
 fn session(rng: &mut Rng, stats: &mut Stats, nontrivial: &mut Vec<u64>) -> Result<(), (String, String, Value)> {
     let mut srv = Server::spawn().map_err(|e| ("INCONCLUSIVE".to_string(), e, Value::Null))?;
     let inc = |e: String| ("INCONCLUSIVE".to_string(), e, Value::Null);
-    let id = srv.request("initialize", json!({"processId": null, "rootUri": null, "capabilities": {}})).map_err(inc)?;
+    // what the client says it can decode (LSP 3.17 `general.positionEncodings`); whatever the server announces in
+    // return is the unit its positions are checked in (absent = UTF-16)
+    let offered: Option<Vec<&str>> = match rng.below(8) {
+        0 => Some(vec!["utf-16"]),
+        1 => Some(vec!["utf-8"]),
+        2 => Some(vec!["utf-16", "utf-8"]),
+        3 => Some(vec!["utf-8", "utf-16"]),
+        4 => Some(vec!["utf-32", "utf-16", "utf-8"]),
+        5 => Some(vec!["utf-32", "utf-8", "utf-16"]),
+        _ => None,
+    };
+    let caps = match &offered { Some(list) => json!({"general": {"positionEncodings": list}}), None => json!({}) };
+    let id = srv.request("initialize", json!({"processId": null, "rootUri": null, "capabilities": caps})).map_err(inc)?;
     let init = match srv.wait_for(|v| v.get("id").and_then(|x| x.as_u64()) == Some(id)) {
         Ok(v) => v,
         Err(Wait::Died(st)) => return Err(("died-at-initialize".into(), format!("server died during initialize: {}", st), Value::Null)),
@@ -329,6 +355,16 @@ fn session(rng: &mut Rng, stats: &mut Stats, nontrivial: &mut Vec<u64>) -> Resul
         .and_then(|v| v.as_array())
         .map(|a| a.len() as u32)
         .ok_or_else(|| inc("initialize response has no semantic token legend".into()))?;
+    let announced = init.pointer("/result/capabilities/positionEncoding").and_then(|v| v.as_str()).unwrap_or("utf-16").to_string();
+    let unit = match announced.as_str() { "utf-16" => 0u8, "utf-8" => 1, "utf-32" => 2, _ => 255 };
+    if unit == 255 || offered.as_ref().map(|l| announced != "utf-16" && !l.contains(&announced.as_str())).unwrap_or(announced != "utf-16") {
+        return Err(("position-encoding".into(), format!("the server announces position encoding {:?}; the client offered {:?}", announced, offered), Value::Null));
+    }
+    UNIT.with(|u| u.set(unit));
+    stats.offers_with_utf8_after_utf16 += offered.as_ref().map(|l| {
+        let (a, b) = (l.iter().position(|x| *x == "utf-16"), l.iter().position(|x| *x == "utf-8"));
+        matches!((a, b), (Some(a), Some(b)) if a < b) as u64
+    }).unwrap_or(0);
     srv.notify("initialized", json!({})).map_err(inc)?;
     let uris = ["file:///a.bas", "file:///b.bas", "file:///dir/c%20d.bas"];
     let n_uris = 1 + rng.usize(3);
@@ -538,7 +574,7 @@ fn session(rng: &mut Rng, stats: &mut Stats, nontrivial: &mut Vec<u64>) -> Resul
 
 fn run_case(ctx: &Ctx, index: u64, rep: &mut Report) {
     let mut rng = ctx.rng(index);
-    let mut stats = Stats { late_publishes: 0, max_diags: 0, bursts: 0, burst_notifications: 0, docs: 0, diags: 0, tokens: 0, non_ascii_docs: 0, token_requests: 0 };
+    let mut stats = Stats { offers_with_utf8_after_utf16: 0, late_publishes: 0, max_diags: 0, bursts: 0, burst_notifications: 0, docs: 0, diags: 0, tokens: 0, non_ascii_docs: 0, token_requests: 0 };
     let mut nontrivial = vec![];
     let r = session(&mut rng, &mut stats, &mut nontrivial);
     rep.add("documents", stats.docs);
@@ -547,6 +583,7 @@ fn run_case(ctx: &Ctx, index: u64, rep: &mut Report) {
     rep.add("semantic_token_requests", stats.token_requests);
     rep.add("non_ascii_documents", stats.non_ascii_docs);
     rep.add("bursts", stats.bursts);
+    rep.add("sessions_offering_utf8_after_utf16", stats.offers_with_utf8_after_utf16);
     rep.add("burst_notifications", stats.burst_notifications);
     rep.add("tolerated.publish_after_barrier", stats.late_publishes);
     rep.max("max_diagnostics_one_document", stats.max_diags);
@@ -571,7 +608,7 @@ fn run_case(ctx: &Ctx, index: u64, rep: &mut Report) {
 
 fn finalize(_tier: Tier, rep: &mut Report) -> Finalize {
     Finalize {
-        rule: "A case is one JSON-RPC session with the real abasic-lsp binary (initialize, initialized, 3-40 didOpen / didChange notifications over 1-3 URIs, semanticTokens/full after half of them, shutdown, exit); a fifth of the steps are bursts of 2-5 notifications written back to back and followed by a request as a barrier: once the barrier is answered every notification of the burst must have been answered, in order, each with the diagnostics of its own text (a late answer within 3 s is tolerated and tallied). Documents: C05's line-kind shapes, non-ASCII strings / comments / DATA before later tokens, arbitrary text, token soup, generated programs (LF or CRLF), deep nesting, empty documents, listings of 60-460 lines with a message on almost every line, and keystroke-by-keystroke prefixes of a program. \
+        rule: "A case is one JSON-RPC session with the real abasic-lsp binary (initialize with one of seven offers of position encodings; positions are checked in the unit the server announces, UTF-16 if it announces none, initialized, 3-40 didOpen / didChange notifications over 1-3 URIs, semanticTokens/full after half of them, shutdown, exit); a fifth of the steps are bursts of 2-5 notifications written back to back and followed by a request as a barrier: once the barrier is answered every notification of the burst must have been answered, in order, each with the diagnostics of its own text (a late answer within 3 s is tolerated and tallied). Documents: C05's line-kind shapes, non-ASCII strings / comments / DATA before later tokens, arbitrary text, token soup, generated programs (LF or CRLF), deep nesting, empty documents, listings of 60-460 lines with a message on almost every line, and keystroke-by-keystroke prefixes of a program. \
                Checked per document: a publishDiagnostics for that URI arrives and the child stays alive; every range lies on an existing line within its UTF-16 length; the multiset of (severity, message, line, start, end) equals the in-process analyzer's messages converted by an independent byte->UTF-16 model; decoded semantic tokens are ordered, non-overlapping, within their line, typed within the advertised legend, and equal the analyzer's token types; exit status 0 after shutdown/exit. \
                Evaluations count documents. Non-trivial: a document with >= 1 diagnostic and a non-ASCII character. Distinct by hash of the document text.".into(),
         floors: vec![
